@@ -354,6 +354,19 @@ Definition load_key (f : option pemdata) (scheme : str) (algs : option (list str
 Definition load_key_defaults (f : option pemdata) : res key :=
   match f with None => Err err_io | Some d => load_key_reader_defaults (RData d) end.
 
+(* internal/spiffe SVIDDetails.InTotoKey: the SVID's private key is marshalled as PKCS#8
+   (x509.MarshalPKCS8PrivateKey, an oracle: [d] is what pem.Decode and the parsers say about
+   that "PRIVATE KEY" block; None = the marshalling fails), loaded with the defaults, and the
+   leaf certificate's raw DER is attached as a "CERTIFICATE" block *)
+Definition svid_in_toto_key (d : option pemdata) (cert_raw : str) : res key :=
+  match d with
+  | None => Err err_unsupported_key_type
+  | Some d =>
+      do k <- load_key_reader_defaults (RData d);
+      Ok (mkKey (k_keyid k) (k_hashalgs k) (k_keytype k) (k_private k) (k_public k)
+                (pem_encode (bs "CERTIFICATE") [] cert_raw) (k_scheme k))
+  end.
+
 End Load.
 
 (* ---------- helpers for the correspondence check ---------- *)
